@@ -522,11 +522,37 @@ func main() {
 			g := sp.Members[n].(*ssa.Global)
 			gl = append(gl, J{"name": n, "type": tkey(g.Type()), "pos": pos(g.Pos())})
 		}
+		cs := []J{}
+		scope := p.Types.Scope()
+		cnames := scope.Names()
+		sort.Strings(cnames)
+		for _, n := range cnames {
+			if c, ok := scope.Lookup(n).(*types.Const); ok {
+				e := J{"name": n, "type": tkey(c.Type())}
+				switch c.Val().Kind() {
+				case constant.Int:
+					e["vk"] = "int"
+					e["v"] = c.Val().ExactString()
+				case constant.Float:
+					e["vk"] = "float"
+					e["v"] = c.Val().ExactString()
+				case constant.String:
+					e["vk"] = "string"
+					e["v"] = constant.StringVal(c.Val())
+				case constant.Bool:
+					e["vk"] = "bool"
+					e["v"] = constant.BoolVal(c.Val())
+				default:
+					continue
+				}
+				cs = append(cs, e)
+			}
+		}
 		files := []string{}
 		for _, f := range p.GoFiles {
 			files = append(files, strings.TrimPrefix(f, "/repo/"))
 		}
-		pk[short(p.PkgPath)] = J{"name": p.Name, "globals": gl, "files": files}
+		pk[short(p.PkgPath)] = J{"name": p.Name, "globals": gl, "files": files, "consts": cs}
 	})
 	doc := J{"funcs": funcs, "types": typeTable, "packages": pk}
 	w := os.Stdout
